@@ -36,7 +36,7 @@ RULE = ('results of every kind with a built-in representation (equal, '
         'class, failing pattern)')
 DECIDING = ['renderings', 'mark_checks', 'tables_read_back',
             'detailed_tables_mapped_to_bins', 'slices_checked',
-            'joins_checked']
+            'joins_checked', 'reused_formatter_checks']
 ASSUMPTIONS = ['names, labels and messages are drawn from [A-Za-z0-9_ .-]: '
                'escaping arbitrary markup is not part of the statement',
                'plot representers are only given datasets without length-1 '
@@ -313,6 +313,66 @@ def check_slices(templates, rng, rec, case, tag):
                               f'{want[:4]}', case)
 
 
+def check_reused_formatter(seed, idx, rec, case):
+    '''One Rst object formats two results in a row (and again after
+    clear()): each text must be the one a fresh Rst object gives, in
+    particular for two runs of the same tasks with different outcomes.'''
+    from valjean.javert.representation import (Representation,
+                                               FullTableRepresenter)
+    from valjean.javert.verbosity import Verbosity
+    from valjean.javert.rst import Rst
+    from valjean.gavroche.diagnostics import stats as vst
+    rng = core.rng_for(seed, PROP, 'reuse', idx)
+    verb = rng.choice([Verbosity.SUMMARY, Verbosity.DEFAULT,
+                       Verbosity.FULL_DETAILS])
+    kind = rng.choice(['stats_tasks', 'stats_tests', 'stats_labels',
+                       'student'])
+    if kind == 'student':
+        pair = [resgen.gen_result(core.rng_for(seed, PROP, 'reuse', idx, k),
+                                  'student', (3,))['result']
+                for k in (0, 1)]
+    else:
+        # the same tasks, run twice with different outcomes
+        trs_1 = resgen.task_results(core.rng_for(seed, PROP, 'reuse', idx,
+                                                 'a'), 'all_ok')
+        trs_2 = [(name, dict(entry)) for name, entry in trs_1]
+        from valjean.cosette.task import TaskStatus
+        trs_2[0][1]['status'] = TaskStatus.FAILED
+        from valjean.gavroche.test import TestEqual
+        ref, dss, _ = resgen.datasets(rng, (2,), 1, 'all')
+        trs_2[0][1]['result'] = [TestEqual(ref, *dss, name='inner0',
+                                           labels={'x': 'a', 'y': 'c',
+                                                   'z': 'e'}).evaluate()]
+        cls = {'stats_tasks': vst.TestStatsTasks,
+               'stats_tests': vst.TestStatsTests,
+               'stats_labels': vst.TestStatsTestsByLabels}[kind]
+        extra = {'by_labels': ('x',)} if kind == 'stats_labels' else {}
+        try:
+            pair = [cls(name='summary', task_results=trs,
+                        **extra).evaluate() for trs in (trs_1, trs_2)]
+        except vst.TestStatsTestsByLabelsException:
+            return
+    if rng.random() < 0.5:
+        pair.reverse()
+    shared = Rst(Representation(FullTableRepresenter(), verb))
+    for step, res in enumerate(pair + pair[:1]):
+        if step == 2:
+            shared.clear()
+        text = '\n'.join(shared.format_result(res))
+        fresh = '\n'.join(Rst(Representation(
+            FullTableRepresenter(), verb)).format_result(res))
+        rec.count('reused_formatter_checks')
+        if text != fresh:
+            doc, _ = rstback.parse(text)
+            marks = rstback.marks(doc) if doc is not None else []
+            rec.violation(f'formatter-remembers-an-earlier-result-{kind}',
+                          f'{kind}/{verb.name}: the {step + 1}. result '
+                          f'formatted by one Rst object (verdict '
+                          f'{bool(res)}) differs from what a fresh object '
+                          f'gives; marks {marks[:3]}', case)
+            return
+
+
 def run_case(seed, idx, tier, rec):
     # pylint: disable=too-many-locals,too-many-branches,too-many-statements
     from valjean.javert.representation import (
@@ -379,6 +439,8 @@ def run_case(seed, idx, tier, rec):
                 check_slices(templates, rng, rec, case, tag)
             rec.seen((kind, truth, verb.name, repname, shape_class,
                       tuple(gen.get('fail', ())), gen.get('style')))
+    if idx % 3 == 0:
+        check_reused_formatter(seed, idx, rec, case)
     if idx % 300 == 0:
         rec.sample({'kind': kind, 'shape': list(gen['shape']),
                     'verdict': truth, 'fail': gen.get('fail'),
